@@ -18,6 +18,8 @@ def Q(name, src, unwind, tier='quick', **kw):
 
 PROPS = {}
 NOT_BUILT = {}
+CUR_TIER, CUR_SEED = 'quick', 1
+GEN = os.path.join(VERIF, '.work', 'gen')
 
 
 def prop(pid):
@@ -40,7 +42,7 @@ def find_queries():
 @prop('C02')
 def c02():
     return dict(
-        queries=find_queries(),
+        queries=find_queries() + stack_queries(2),
         level='model_checking',
         level_text='Bounded: the real find<Sig>() selection loop is decided against the C02 selection rule for every match/cost vector of lists up to the stated length.',
         bound='find<Sig>: list length N<=4 (quick) / <=6 (thorough), all 2^N match vectors x all 32-bit cost vectors',
@@ -48,7 +50,101 @@ def c02():
     )
 
 
-def queries(pid, tier):
+# ------------------------------------------------------------------------------------------- shared API kernels
+def stack_queries(nn, quick_shapes=((1, 0), (1, 1), (2, 0), (2, 1), (2, 2)), thorough_shapes=((2, 3), (3, 0), (3, 1), (3, 2), (3, 4), (3, 5))):
+    """api/stack.cpp: N stacked expectations, SAT = bitmask of pre-saturated ones; only property nn's obligations"""
+    qs = []
+    for n, sat in quick_shapes:
+        qs.append(Q('stack_N%d_sat%d' % (n, sat), 'api/stack.cpp', n + 3, defs={'VF_N': n, 'VF_SAT': sat, 'VF_CLAIM': nn}, timeout=600))
+    for n, sat in thorough_shapes:
+        qs.append(Q('stack_N%d_sat%d' % (n, sat), 'api/stack.cpp', n + 3, tier='thorough', defs={'VF_N': n, 'VF_SAT': sat, 'VF_CLAIM': nn}, timeout=3000))
+    return qs
+
+
+STACK_BOUND = ('api/stack: N<=2 (quick) / N<=3 (thorough) live expectations f(ge(lo)).WITH(_1<=hi) on one int(int) mock function, every '
+               'pre-saturation pattern, all 64-bit (L,H,count) per expectation under the stated invariant, all 32-bit lo/hi/argument, one call')
+
+
+# ------------------------------------------------------------------------------------------- C01
+@prop('C01')
+def c01():
+    return dict(
+        queries=find_queries() + stack_queries(1),
+        level='model_checking',
+        level_text='Bounded: real find<Sig>() for all match/cost vectors; one real mock call against N<=2(3) real stacked expectations from an arbitrary invariant-satisfying counter state with arbitrary matcher operands and argument: accepted iff the designated candidate exists and is not forbidding, otherwise exactly one fatal report and no effect.',
+        bound=STACK_BOUND + '; find<Sig> list length <=4 (6)',
+        outside='histories longer than one call from the constructed pre-state (covered inductively through the invariant), sequences (C05), mock moves (C14)',
+    )
+
+
+# ------------------------------------------------------------------------------------------- C03
+@prop('C03')
+def c03():
+    qs = [Q('counter', 'C03/counter.cpp', 2)]
+    for r in (0, 9):
+        qs.append(Q('run_regime%d' % r, 'C03/run.cpp', 4, defs={'VF_REGIME': r}, timeout=600))
+    for r in (1, 2):
+        qs.append(Q('run_regime%d' % r, 'C03/run.cpp', 4, tier='thorough', defs={'VF_REGIME': r}, timeout=600))
+    return dict(
+        queries=qs + stack_queries(3),
+        level='model_checking',
+        level_text='Bounded/inductive: counter predicates for all 64-bit (L,H,count); one real mock call from an arbitrary invariant-satisfying counter state moves the expectation to the saturated list iff count reaches H, stacked or alone.',
+        bound='one step from an arbitrary counter state; ' + STACK_BOUND,
+        outside='n accepted calls => min(n,H) follows by induction on the invariant (argument, not solver fact)',
+    )
+
+
+# ------------------------------------------------------------------------------------------- C07
+@prop('C07')
+def c07():
+    return dict(
+        queries=stack_queries(7) + [Q('run_forbidden', 'C03/run.cpp', 4, defs={'VF_REGIME': 0})],
+        level='model_checking',
+        level_text='Bounded: a forbidding (H==0) designated candidate yields exactly one fatal report with its location, no count change, no side effect, stays active, satisfied and saturated; non-matching calls pass it by.',
+        bound=STACK_BOUND,
+    )
+
+
+# ------------------------------------------------------------------------------------------- C08
+@prop('C08')
+def c08():
+    return dict(
+        queries=stack_queries(8),
+        level='model_checking',
+        level_text='Bounded: only the handling expectation\'s side effect runs, once; its RETURN value reaches the caller.',
+        bound=STACK_BOUND,
+    )
+
+
+# ------------------------------------------------------------------------------------------- C10
+@prop('C10')
+def c10():
+    import gen
+    files = gen.c10_files(os.path.join(GEN, 'C10'), CUR_TIER, CUR_SEED)
+    qs = [Q(name, path, 3, timeout=300, ncases=n) for name, path, n in files]
+    return dict(
+        queries=qs,
+        level='model_checking',
+        level_text='Bounded: param_matches(tree, x) equals the mathematical predicate for all 32-bit argument and operand values (and null / non-null pointers), for every matcher expression tree in the enumerated + drawn set of depth <= 3.',
+        bound='expression trees of depth <=3 over eq/ne/lt/le/gt/ge (duck-typed and <int>), _, ANY(int), plain values, !, *, any_of/all_of/none_of with 1..3 operands, MEMBER_IS; all int values',
+        outside='re(): the regular expression engine is libstdc++ and outside the claim; string operands',
+    )
+
+
+# ------------------------------------------------------------------------------------------- C16
+@prop('C16')
+def c16():
+    return dict(
+        queries=stack_queries(16),
+        level='model_checking',
+        level_text='Bounded: exactly one OK report per accepted call carrying the handling expectation\'s text; none for rejected/forbidden calls.',
+        bound=STACK_BOUND,
+    )
+
+
+def queries(pid, tier, seed=1):
+    global CUR_TIER, CUR_SEED
+    CUR_TIER, CUR_SEED = tier, seed
     sp = PROPS[pid]()
     return [q for q in sp['queries'] if tier == 'thorough' or q['tier'] == 'quick']
 
